@@ -637,7 +637,16 @@ func writeTypeConversion(w *formatting.IndentedWriter, typeChange dsl.TypeChange
 	case *dsl.TypeChangeOptionalTypeChanged:
 		fmt.Fprintf(w, "if (%s.has_value()) {\n", sourceName)
 		w.Indented(func() {
-			writeTypeConversion(w, tc.InnerChange, sourceName+".value()", targetName, write)
+			// The inner conversion may need to treat its target as a container (resize, index),
+			// so it gets a variable of the inner type rather than the optional itself
+			innerTargetType := tc.InnerChange.NewType()
+			if write {
+				innerTargetType = tc.InnerChange.OldType()
+			}
+			tmpName := fmt.Sprintf("inner_value%d", strings.Count(sourceName, "[")+strings.Count(sourceName, ".value()"))
+			fmt.Fprintf(w, "%s %s = {};\n", common.TypeSyntax(innerTargetType), tmpName)
+			writeTypeConversion(w, tc.InnerChange, sourceName+".value()", tmpName, write)
+			fmt.Fprintf(w, "%s = %s;\n", targetName, tmpName)
 		})
 		fmt.Fprintf(w, "} else {\n")
 		w.Indented(func() {
